@@ -4,58 +4,87 @@ package decoder
 
 import (
 	"context"
-	"fmt"
 	"os"
 	"path/filepath"
 	"testing"
+	"time"
 
 	"github.com/KafScale/platform/addons/processors/skeleton/internal/verifc34"
 	"github.com/KafScale/platform/addons/processors/skeleton/internal/verifkit"
 )
 
-// TestVerifC34Skeleton: the skeleton decoder's whole API is Decode(ctx, segmentKey, indexKey);
-// it is handed hostile segments the only way it can be: as keys naming files that hold them.
+// The skeleton decoder's whole API is Decode(ctx, segmentKey, indexKey); it is handed hostile
+// segments the only way it can be: as keys naming files that hold them.
+func c34Targets() []verifc34.Target {
+	return []verifc34.Target{
+		// the input's bytes are written to <work>/segment-00000000000000000000.kfs / .index and Decode gets those paths
+		{Name: "Decode", Variants: 1, Fn: func(in *verifc34.Input, _ int) (int, error) {
+			dir := os.Getenv("C34_SKELETON_FILES")
+			p := filepath.Join(dir, "segment-00000000000000000000.kfs")
+			q := filepath.Join(dir, "segment-00000000000000000000.index")
+			if err := os.WriteFile(p, in.Data, 0o644); err != nil {
+				panic("harness: " + err.Error())
+			}
+			if err := os.WriteFile(q, in.Aux, 0o644); err != nil {
+				panic("harness: " + err.Error())
+			}
+			got, err := New().Decode(context.Background(), p, q)
+			return len(got), err
+		}},
+		// the input's bytes ARE the key strings
+		{Name: "DecodeKey", Variants: 1, Fn: func(in *verifc34.Input, _ int) (int, error) {
+			got, err := New().Decode(context.Background(), string(in.Data), string(in.Data))
+			return len(got), err
+		}},
+	}
+}
+
+// TestVerifC34Child is the crashbox child entry point (a no-op unless spawned by the parent).
+func TestVerifC34Child(t *testing.T) {
+	if !verifc34.IsChild() {
+		t.Skip("crashbox child only")
+	}
+	if err := verifc34.ChildMain(c34Targets()); err != nil {
+		t.Fatalf("crashbox child: %v", err)
+	}
+}
+
 func TestVerifC34Skeleton(t *testing.T) {
 	r := verifkit.Start(t, "C34", "skeleton")
-	defer r.Finish("skeleton decoder: Decode(ctx, segmentKey, indexKey) is called under recover() with keys naming files that hold the first inputs of the hostile segments container (and with hostile key strings); violation = panic. The decoder is a placeholder that reads no bytes, so every case is trivial by construction and is counted as such (non-trivial = the call returned at least one batch)",
-		"no byte-level entry point exists in the skeleton decoder; allocation is not measured here")
+	defer r.Finish("crashbox over the skeleton decoder: Decode(ctx, segmentKey, indexKey) is called in a child process with keys naming files that hold the first inputs of the hostile segments container (broker-written valid segments, the whole attribute sweep: every attributes bit pattern on otherwise valid batches) and with hostile key strings; the child logs the input index before the call and the return after it, recovers panics and measures TotalAlloc; the parent watches the child's progress and CPU time; violation = panic, process death, > 64 MiB allocated by one call, or a call that does not return (20 s of CPU time consumed inside one call, confirmed by re-running that input alone in a fresh child with the same rule; class decoder_does_not_return:skeleton.<entry point>). The decoder is a placeholder that reads no bytes, so every case is trivial by construction and is counted as such (non-trivial = the call returned at least one batch)",
+		"no byte-level entry point exists in the skeleton decoder",
+		"'never returns' is decided on CPU time, not elapsed time: a child that makes no progress without consuming CPU (machine load, blocked) only trips the wall-clock watchdog, which is inconclusive")
 	dir := verifc34.CorpusDir()
-	n := r.N(200, 2000)
-	ins, err := verifc34.Read(filepath.Join(dir, "segments"), 0, n)
-	if err != nil {
-		t.Fatalf("harness: %v", err)
-	}
-	tmp := filepath.Join(filepath.Dir(dir), "c34work-skeleton")
-	if err := os.MkdirAll(tmp, 0o755); err != nil {
+	work := filepath.Join(filepath.Dir(dir), "c34work-skeleton")
+	files := filepath.Join(work, "files")
+	if err := os.MkdirAll(files, 0o755); err != nil {
 		t.Fatal(err)
 	}
-	d := New()
-	call := func(sig, segKey, idxKey string) {
-		var got []Batch
-		func() {
-			defer func() {
-				if p := recover(); p != nil {
-					r.Violation("skeleton.Decode.panic", fmt.Sprintf("Decode(%q, %q) panicked: %v", segKey, idxKey, p), map[string]any{"segment_key": segKey, "index_key": idxKey})
-				}
-			}()
-			got, _ = d.Decode(context.Background(), segKey, idxKey)
-		}()
-		r.Case(sig, len(got) > 0)
-		r.Count("decode_calls", 1)
+	t.Setenv("C34_SKELETON_FILES", files)
+	kw, err := verifc34.NewWriter(filepath.Join(work, "keys"))
+	if err != nil {
+		t.Fatal(err)
 	}
-	for i := range ins {
-		p := filepath.Join(tmp, fmt.Sprintf("segment-%020d.kfs", i))
-		if err := os.WriteFile(p, ins[i].Data, 0o644); err != nil {
-			t.Fatal(err)
-		}
-		q := filepath.Join(tmp, fmt.Sprintf("segment-%020d.index", i))
-		if err := os.WriteFile(q, ins[i].Aux, 0o644); err != nil {
-			t.Fatal(err)
-		}
-		call(fmt.Sprintf("file/%d/%s", i, ins[i].Label), p, q)
+	for _, k := range []string{"", "/", "..", "default/t/0/segment-99999999999999999999999.kfs", "default/t/-1/segment-.kfs", "\x00", string(make([]byte, 70000))} {
+		kw.Add(verifc34.Input{Label: "key", Data: []byte(k)})
 	}
-	for i, k := range []string{"", "/", "..", "default/t/0/segment-99999999999999999999999.kfs", "default/t/-1/segment-.kfs", "\x00", string(make([]byte, 70000))} {
-		call(fmt.Sprintf("key/%d", i), k, k)
+	if err := kw.Close(); err != nil {
+		t.Fatal(err)
 	}
-	r.Sample(map[string]any{"calls": len(ins) + 7, "note": "placeholder decoder returns (nil, nil) without reading"})
+	hangBudget := verifc34.DefaultHangBudget // hang investigations (kill + confirm alone) for the whole leg
+	base := verifc34.Config{Dir: work, ChildTest: "^TestVerifC34Child$", Batch: 4000, Timeout: 10 * time.Minute, MaxDeaths: r.N(150, 1500), HangBudget: &hangBudget}
+	never := func(*verifc34.Input) bool { return false } // the placeholder reads nothing: honest count
+	seg := base
+	seg.Corpus, seg.Target, seg.Limit = filepath.Join(dir, "segments"), "Decode", r.N(800, 8000) // valid segments, the whole attribute sweep, then hostile ones
+	if err := verifc34.Drive(r, seg, "skeleton", never); err != nil {
+		t.Fatalf("harness: %v", err)
+	}
+	keys := base
+	keys.Corpus, keys.Target = filepath.Join(work, "keys"), "DecodeKey"
+	if err := verifc34.Drive(r, keys, "skeleton", never); err != nil {
+		t.Fatalf("harness: %v", err)
+	}
+	r.Sample(map[string]any{"note": "placeholder decoder returns (nil, nil) without reading"})
+	r.Floor("Decode_calls", 700)
+	r.Floor("DecodeKey_calls", 7)
 }
